@@ -135,12 +135,23 @@ func (fr *frame) instr(b *ssa.BasicBlock, in ssa.Instruction, reach Term, h Heap
 	case *ssa.RunDefers:
 		for i := len(fr.defers) - 1; i >= 0; i-- {
 			d := fr.defers[i]
-			_, h = fr.call(b, d, &d.Call, reach, h, nil)
+			switch {
+			case d.Block() == b || d.Block().Dominates(b):
+				// registered on every path to this return
+				_, h = fr.call(b, d, &d.Call, reach, h, nil)
+			case !blockReaches(d.Block(), b):
+				// not registered on any path to this return
+			default:
+				x.note("conditionally registered defer in " + fr.fn.String() + ": modelled as an arbitrary effect")
+				h = x.havocAll(h, reach)
+			}
 		}
 		return h
 	case *ssa.Defer:
-		if in.Block() != fr.fn.Blocks[0] {
-			x.note("defer outside the entry block in " + fr.fn.String())
+		for _, d := range fr.defers {
+			if d == in {
+				return h
+			}
 		}
 		fr.defers = append(fr.defers, in)
 		return h
@@ -356,6 +367,27 @@ func escapes(a *ssa.Alloc) bool {
 				n := calleeName(&r.Call)
 				if !(isEffectFree(n) || (nonRetaining != nil && nonRetaining(n))) {
 					return true
+				}
+			case *ssa.MakeClosure:
+				// captured by a function literal that is only deferred or called on the spot in this function: no
+				// other callee can reach the variable (the literal's body is encoded inline, with its own stores)
+				if r.Referrers() == nil {
+					return true
+				}
+				for _, rr := range *r.Referrers() {
+					switch rr := rr.(type) {
+					case *ssa.DebugRef:
+					case *ssa.Defer:
+						if rr.Call.Value != ssa.Value(r) {
+							return true
+						}
+					case *ssa.Call:
+						if rr.Call.Value != ssa.Value(r) {
+							return true
+						}
+					default:
+						return true
+					}
 				}
 			case *ssa.Slice:
 				// a slice of the allocation that only feeds append/copy or effect-free callees (variadic
@@ -1071,4 +1103,23 @@ func calleeName(c *ssa.CallCommon) string {
 		return "builtin." + b.Name()
 	}
 	return ""
+}
+
+// blockReaches: there is a control-flow path from a to b.
+func blockReaches(a, b *ssa.BasicBlock) bool {
+	seen := map[*ssa.BasicBlock]bool{}
+	stack := []*ssa.BasicBlock{a}
+	for len(stack) > 0 {
+		n := stack[len(stack)-1]
+		stack = stack[:len(stack)-1]
+		if n == b {
+			return true
+		}
+		if seen[n] {
+			continue
+		}
+		seen[n] = true
+		stack = append(stack, n.Succs...)
+	}
+	return false
 }
